@@ -371,6 +371,8 @@ def run(tier, seed):
     core = ['a', '1', '.', '(', ')', ':', '=', "'", '\\', '#', ' ', '\t', '\n', '\r', 'é']
     nc = 5 if tier == 'quick' else 6
     jobs += [('chars', nc, s, core) for s in X.prefix_shards(core, nc, 2)]
+    ll = 4 if tier == 'quick' else 5
+    jobs += [('chars', ll, s, R.LAYOUT_LEX) for s in X.prefix_shards(R.LAYOUT_LEX, ll, 1 if tier == 'quick' else 2)]
     nl = 2 if tier == 'quick' else 3
     jobs += [('lexemes', nl, s) for s in X.prefix_shards(LEXEMES, nl, 1)]
     jobs += [('corpus', g, d) for g in K.group_shards(K.shards_for(d, 'file'), 64)]
